@@ -21,7 +21,7 @@ def run(tier, seed):
                                                               ("muwait_mix", {"VRT_MODE": 1, "VRT_CV": 0}, 150, 1500),
                                                               ("mu_mix", {}, 150, 1500)], tier, seed)
     specs = [("muwait_mix", {"VRT_MODE": 0}, 4000, 80000), ("muwait_mix", {"VRT_MODE": 1}, 1000, 20000), ("muwait_mix", {"VRT_MODE": 2}, 2500, 50000),
-             ("muwait_mix", {"VRT_MODE": 0}, 800, 15000, "binary"), ("muwait_mix", {"VRT_MODE": 3}, 1500, 30000)]
+             ("muwait_mix", {"VRT_MODE": 0}, 800, 15000, "binary"), ("muwait_mix", {"VRT_MODE": 3}, 1500, 30000), ("muwait_mix", {"VRT_MODE": 0, "VRT_FINE": 600}, 1500, 30000)]
     cov = scen_common.run_scenarios(res, specs, tier, seed, {"C06", "C05"} | scen_common.LIVENESS | scen_common.CRASHES)
     cov["rule"] = ("muwait_mix: 2..4 waiters on {same f+arg, same f+different arg, eq-equivalent args, different f, no condition} in reader/"
                    "writer mode, setters that end with plain nsync_mu_unlock, a bystander using nsync_mu_unlock_without_wakeup after sections "
